@@ -315,6 +315,47 @@ func (g *gcImpl) Exec(line string) (out string) {
 			return "notfound"
 		}
 		return render(v)
+	case "gettyped":
+		// gc gettyped <str|int|bool|list|map> <path>: typed Get at a leaf / container
+		if g.cfg == nil {
+			return "noconfig"
+		}
+		if len(ws) != 4 {
+			return "bad-op"
+		}
+		switch ws[2] {
+		case "str":
+			v, err := gconfig.Get[string](g.cfg, ws[3])
+			if err != nil {
+				return "notfound"
+			}
+			return render(v)
+		case "int":
+			v, err := gconfig.Get[int](g.cfg, ws[3])
+			if err != nil {
+				return "notfound"
+			}
+			return render(v)
+		case "bool":
+			v, err := gconfig.Get[bool](g.cfg, ws[3])
+			if err != nil {
+				return "notfound"
+			}
+			return render(v)
+		case "list":
+			v, err := gconfig.Get[[]any](g.cfg, ws[3])
+			if err != nil {
+				return "notfound"
+			}
+			return render(v)
+		case "map":
+			v, err := gconfig.Get[map[string]any](g.cfg, ws[3])
+			if err != nil {
+				return "notfound"
+			}
+			return render(v)
+		}
+		return "bad-op"
 	case "getnull":
 		if g.cfg == nil {
 			return "noconfig"
